@@ -41,6 +41,47 @@ def lower_bound_residual_ok(g, probs):
     return max(abs(a - c) for a, c in zip(b, fx)) <= THR * (1 + Fr(1, 1000))
 
 
+def same_system(S1, S2, perm, v1, v2):
+    """the listed finding is about two residual-stop approximations of ONE exact vector: the two conditioned
+    games must be the same game up to the renumbering/renaming, and states outside it must agree exactly"""
+    c1, c2 = S1.cond_as_solved(), S2.cond_as_solved()
+    for s in range(S1.n):
+        if S1.prune and s not in S1.reach0:
+            if v1[s] != v2[perm[s]]:
+                return False
+            continue
+        a = sorted((str(l if not isinstance(l, str) else rename(l)), perm[t]) for l, t in c1[s])
+        b = sorted((str(l), t) for l, t in c2[perm[s]])
+        if len(a) != len(b):
+            return False
+        for (la, ta), (lb, tb) in zip(sorted(a, key=lambda x: (x[1], x[0])), sorted(b, key=lambda x: (x[1], x[0]))):
+            if ta != tb:
+                return False
+            if la != lb:
+                try:
+                    if abs(Fr(la) - Fr(lb)) > Fr(1, 10 ** 9):
+                        return False
+                except (ValueError, ZeroDivisionError):
+                    return False
+    return True
+
+
+def near_tie_split(S1, S2, perm):
+    """some player state's reachability strategies differ between the two runs although the reported values of
+    its competing successors are within ten thresholds of each other (not exactly equal) in one of the runs: the
+    rounded comparison split a near-tie differently (listed findings C04 rounded-compare + residual stop); the
+    two conditioned games then differ legitimately"""
+    for s in range(S1.n):
+        a, b = S1.reach_strat[s], S2.reach_strat[perm[s]]
+        if a is None or b is None or set(a) == set(unrename(x) for x in b):
+            continue
+        row = S1.g["transition_list"][s]
+        for vals in ([S1.probs[t] for _, t in row], [S2.probs[perm[t]] for _, t in row]):
+            if any(0 < abs(x - y) <= float(TOL) for i, x in enumerate(vals) for y in vals[i + 1:]):
+                return True
+    return False
+
+
 def compare(ctx, g, h, perm, prune, o1, o2):
     """o1: result on g, o2: on h = permuted/shuffled/renamed g (perm[old] = new)"""
     inp = {"game": gen.desc(g), "transformed": gen.desc(h), "perm": perm, "prune": prune}
@@ -76,7 +117,9 @@ def compare(ctx, g, h, perm, prune, o1, o2):
             else:
                 from analysis import Solved
                 lim = THR * (1 + Fr(1, 1000)) + Fr(1, 10 ** 10) * Fr(scale)
-                okres = Solved(g, prune, o1).reward_residual() <= lim and Solved(h, prune, o2).reward_residual() <= lim
+                S1, S2 = Solved(g, prune, o1), Solved(h, prune, o2)
+                okres = S1.reward_residual() <= lim and S2.reward_residual() <= lim and \
+                    (same_system(S1, S2, perm, v1, v2) or near_tie_split(S1, S2, perm))
             sig = KEY_TOL if okres else None
             ctx.violation(name + "-renumbered", inp, {"max_difference": worst, "original": v1, "transformed": v2}, key=sig)
             return
@@ -119,8 +162,10 @@ def compare(ctx, g, h, perm, prune, o1, o2):
 CASE = {"map": None}
 
 
-def check_case(ctx, g, rng, model=None, limit=5.0, shuffle=True):
+def check_case(ctx, g, rng, model=None, limit=5.0, shuffle=True, prunes=(True, False)):
     global rename, unrename
+    import time as _t
+    _t0 = _t.time()
     n = len(g["players"])
     perm = gen.random_perm_fixing0(rng, n)
     if rng.random() < 0.35:
@@ -141,16 +186,20 @@ def check_case(ctx, g, rng, model=None, limit=5.0, shuffle=True):
         [t for _, t in a] != [perm_t for _, perm_t in b] for a, b in
         zip([[(l, perm[t]) for l, t in row] for row in g["transition_list"]],
             [h["transition_list"][perm[i]] for i in range(n)]))
-    for prune in (True, False):
+    for prune in prunes:
         o1 = impl.solve(g, prune, limit=limit, want_nodes=False)
         o2 = impl.solve(h, prune, limit=limit, want_nodes=False)
         compare(ctx, g, h, perm, prune, o1, o2)
-        if model is not None and n <= 400:
+        if model is not None and n <= 400 and o2["outcome"] != "Timeout":
             model.add("solve", dict(wire.game_payload(h), prune=prune), expect=dict(o2, nodes=None),
                       inp={"game": gen.desc(h), "prune": prune} if n <= 30 else {"meta": g.get("_meta")},
                       suite="corr.rewards")
     ctx.case({"game": gen.desc(g), "perm": perm} if n <= 30 else {"meta": g.get("_meta"), "perm_head": perm[:10]}, nt)
     ctx.count("family=" + str(g.get("_meta", {}).get("family", "?")).split(":")[0])
+    import time as _t
+    tb = ctx.extra.setdefault("seconds_by_family", {})
+    fam = str(g.get("_meta", {}).get("family", "?")).split(":")[0]
+    tb[fam] = round(tb.get(fam, 0.0) + (_t.time() - _t0), 2)
 
 
 def run(ctx, model=None):
@@ -166,6 +215,14 @@ def run(ctx, model=None):
         check_case(ctx, gen.parallel_dead_game(rng), rng, model)
     for k in range(25 if ctx.quick() else 300):
         check_case(ctx, gen.decimal_sum_game(rng), rng, model)
+    for k in range(25 if ctx.quick() else 300):
+        check_case(ctx, gen.tiny_dead_decimal_game(rng), rng, model)
+        check_case(ctx, gen.tiny_best_game(rng), rng, model)
+    # numberings beyond every "round" size (4096, 10^4, 2^16 states): wide shallow games, 3 sweeps under any numbering
+    with impl.forced_debug(False):
+        for nn in ([10500, 66000] if ctx.quick() else [4100, 10001, 10500, 65537, 66000, 140000]):
+            # (the pruned solve of the code is quadratic in the number of states: unpruned only above 20000)
+            check_case(ctx, gen.fan_game(nn, rng), rng, None, limit=300.0, prunes=(True, False) if nn <= 20000 else (False,))
     N = 200 if ctx.quick() else 5000
     for k in range(N):
         g = gen.slow_cycle_game(rng) if k % 7 == 0 else gen.stopping_game(rng)
@@ -175,7 +232,7 @@ def run(ctx, model=None):
     shapes = [(1, 2), (2, 2), (3, 3)] if ctx.quick() else [(1, 2), (2, 2), (3, 3), (5, 5), (10, 5), (10, 10)]
     for (L, W) in shapes:
         for g in board_games(rng, L, W, fd=True):
-            check_case(ctx, g, rng, model, limit=4.0 if ctx.quick() else 30.0)
+            check_case(ctx, g, rng, model, limit=2.0 if ctx.quick() else 30.0)
 
 
 def known_findings(ctx):
